@@ -14,6 +14,9 @@ from ..prng import Rng, derive
 from ..values import num, s, b, cls, anyof, first_diff, ERROR_KINDS
 from ..core import process_outcome, Stats, stable_hash
 
+import os
+MC_EVERY = int(os.environ.get("VERIF_MEMCHECK_EVERY", "100"))      # exploration knob: 1 = every case also runs under valgrind
+
 M = 1000003
 
 HELPERS = """fn h1(me, v) { var loc = v + 1; var got = Fiber.yield(loc); print(("ev", "h1", me, loc)); return got; }
@@ -784,7 +787,7 @@ class C09:
                 site = "s%d" % rng.range(1, ir["sites"])
                 faults.setdefault(site, {})[str(rng.range(1, 3))] = rng.choice(ERROR_KINDS)
         tape = make_tape(rng, ir, faults)
-        return {"ir": ir, "tape": tape, "faults": faults, "gc_slice": (idx % 8 == 0), "mc_slice": (idx % 100 == 50)}
+        return {"ir": ir, "tape": tape, "faults": faults, "gc_slice": (idx % 8 == 0), "mc_slice": (idx % MC_EVERY == MC_EVERY // 2)}
 
     def check(self, sc, ctx):
         stats = Stats()
